@@ -14,7 +14,7 @@ import logging
 import sys
 import threading
 from abc import ABC, abstractmethod
-from collections.abc import Callable, Iterable, Sized
+from collections.abc import Callable, Iterable, Iterator, Sized
 from dataclasses import dataclass, field
 from functools import wraps
 from itertools import count
@@ -1361,6 +1361,13 @@ class ExecutionTracer(AbstractExecutionTracer):  # noqa: PLR0904
         with self.temporarily_disable():
             value1 = tt.unwrap(value1)
             value2 = tt.unwrap(value2)
+
+            if cmp_op in {PynguinCompare.IN, PynguinCompare.NOT_IN} and isinstance(
+                value2, Iterator
+            ):
+                # Testing the membership here would consume the elements of the iterator
+                # that the module under test is about to search.
+                return
 
             match cmp_op:
                 case PynguinCompare.EQ:
